@@ -356,9 +356,7 @@ def run(chk, repo, tier):
                    'GroupMissingDataError.__init__',
                    'GroupMissingDataError stores the groups and the '
                    'property-set name it is given, in that order')
-    for q in ('GroupLibrary.__init__', 'GroupLibrary.__contains__',
-              'GroupLibrary.__iter__', 'GroupLibrary.__len__',
-              'GroupLibrary._do_load'):
+    for q in ('GroupLibrary.__init__', 'GroupLibrary.__contains__'):
         reviewed.check(chk, 'R01.9', repo, LIB, q,
                        '%s (library contents and lookup) is unchanged in '
                        'normal form from its reviewed reference' % q)
